@@ -12,6 +12,7 @@ import (
 	"gverif/engine/constx"
 	"gverif/engine/decode"
 	"gverif/engine/dspx"
+	"gverif/engine/errx"
 	"gverif/engine/factkind"
 	"gverif/engine/factx"
 	"gverif/engine/flagx"
@@ -28,6 +29,7 @@ import (
 	"gverif/engine/paramuse"
 	"gverif/engine/pool"
 	"gverif/engine/rawx"
+	"gverif/engine/settingsx"
 	"gverif/engine/sibx"
 	"gverif/engine/stride"
 	"gverif/engine/swapx"
@@ -59,15 +61,15 @@ var propertyCanaries = map[string][]string{
 	"C03": {"WORK.init", "FLAG.cholorder", "ARGS.callee", "FLAG.unset", "FLAG.unitdiag", "WORKSIZE.fallback", "GUARD.operand", "FLAG.uplomap", "STRIDE.veclda", "FACTKIND.pair", "LOOPIDX.origin", "ARGS.order", "ARGS.lencheck", "ARGS.query", "LOOPIDX.unused", "OKFLOW.report", "STRIDE.workld", "STRIDE.worknext", "WORKSIZE.min"},
 	"C04": {"MAT.selfguard", "ZEROED.paths", "SWAP.cond", "STRIDE.contig", "TWIN.bounds", "NILRECV"},
 	"C05": {"OVERLAP.extent", "OVERLAP.guard", "MODSET.mat", "OVERLAP.symmetric", "TWIN.shadow"},
-	"C06": {"FACT.deadloop", "FACT.reuse", "FLAG.unset", "OKFLOW.condpath", "FACT.condafter", "FACTKIND.pair", "OKFLOW.use", "OKFLOW.cond", "OKFLOW.report", "FACT.normorder", "FACT.state", "FACT.condunit", "NILRECV"},
+	"C06": {"ERR.overwrite", "ERR.swallow", "FACT.deadloop", "FACT.reuse", "FLAG.unset", "OKFLOW.condpath", "FACT.condafter", "FACTKIND.pair", "OKFLOW.use", "OKFLOW.cond", "OKFLOW.report", "FACT.normorder", "FACT.state", "FACT.condunit", "NILRECV"},
 	"C07": {"ARGS.callee", "ARGS.ldcols", "ARGS.condlen", "ARGS.arms", "ARGS.strict", "ARGS.fullrow", "WORKSIZE.querylen", "ARGS.order", "ARGS.lencheck", "ARGS.query", "MAT.order", "ASM.window", "ASM.tail", "STRIDE.len"},
 	"C08": {"STRIDE.fullrange", "BETA.scaleguard", "CONSTFOLD.underflow", "ASM.lost", "PARAMUSE.read", "ASM.window", "ASM.tail", "ASM.units", "STRIDE.extent", "SIB.guards"},
-	"C09": {"RAW.stride", "GOPROTO.accumzero", "GOPROTO.semcap", "GOPROTO.scratch", "GLOBAL.write", "GOPROTO.capture", "GOPROTO.lockpair", "GOPROTO.sibling", "POOL.uaf"},
+	"C09": {"GOPROTO.latch", "GOPROTO.lockexit", "RAW.stride", "GOPROTO.accumzero", "GOPROTO.semcap", "GOPROTO.scratch", "GLOBAL.write", "GOPROTO.capture", "GOPROTO.lockpair", "GOPROTO.sibling", "POOL.uaf"},
 	"C12": {"GRAPHINV.together", "GRAPHINV.expose", "SWAP.cond", "GRAPHINV.prune", "TWIN.sibguard", "GRAPHINV.panicorder", "GRAPHINV.absent", "GRAPHINV.iterreset", "GRAPHINV.converse", "GRAPHINV.uid", "GRAPHINV.iter", "TWIN.sibstate"},
-	"C16": {"RESET.revive", "DECODE.order", "DECODE.errdrop", "DECODE.mul", "DECODE.selfcmp", "DECODE.clone", "DECODE.fields"},
+	"C16": {"ERR.overwrite", "ERR.swallow", "RESET.revive", "DECODE.order", "DECODE.errdrop", "DECODE.mul", "DECODE.selfcmp", "DECODE.clone", "DECODE.fields"},
 	"C17": {"CMPLX.parts", "RESET.noleak", "GLOBAL.write", "RESET.fields", "WINDOW.pointwise"},
-	"C18": {"RAW.stride", "SWAP.cond", "GOPROTO.accumzero", "CONST.stencil", "GOPROTO.sibling"},
-	"C19": {"OPT.maskpair", "ALIAS.config", "OPT.limits", "GOPROTO.scratch", "GOPROTO.run", "INIT.state"},
+	"C18": {"ERR.overwrite", "ERR.swallow", "SETTINGS.readonly", "RAW.stride", "SWAP.cond", "GOPROTO.accumzero", "CONST.stencil", "GOPROTO.sibling"},
+	"C19": {"GOPROTO.latch", "ERR.overwrite", "ERR.swallow", "SETTINGS.readonly", "OPT.maskpair", "ALIAS.config", "OPT.limits", "GOPROTO.scratch", "GOPROTO.run", "INIT.state"},
 }
 
 func init() {
@@ -117,6 +119,11 @@ func init() {
 		{"STRIDE.fullrange", "internal/asm/f32/gemv.go", "for i := range y[:n] {", "for i := range y {", func() *core.Result { return stride.Run(def, core.Pkgs("./internal/asm/f32")) }},
 		{"STRIDE.flatfill", "blas/gonum/level3float64.go", "\tif alpha == 0 {\n\t\tfor i := 0; i < m; i++ {\n\t\t\tbtmp := b[i*ldb : i*ldb+n]\n\t\t\tfor j := range btmp {\n\t\t\t\tbtmp[j] = 0\n\t\t\t}\n\t\t}\n\t\treturn\n\t}\n\n\tnonUnit := d == blas.NonUnit", "\tif alpha == 0 {\n\t\tfor i := range b[:ldb*(m-1)+n] {\n\t\t\tb[i] = 0\n\t\t}\n\t\treturn\n\t}\n\n\tnonUnit := d == blas.NonUnit", func() *core.Result { return stride.Run(def, core.Pkgs("./blas/gonum")) }},
 		{"WORK.init", "lapack/gonum/dlange.go", "\t\tfor i := 0; i < n; i++ {\n\t\t\twork[i] = 0\n\t\t}\n\t\tfor i := 0; i < m; i++ {", "\t\tfor i := 0; i < m; i++ {", func() *core.Result { return flagx.RunWorkInit(def, core.Pkgs("./lapack/gonum")) }},
+		{"SETTINGS.readonly", "diff/fd/hessian.go", "\t\t\tstep = settings.Step\n", "\t\t\tstep = settings.Step\n\t\t\tsettings.Step = step\n", func() *core.Result { return settingsx.Run(def, core.Pkgs("./diff/fd")) }},
+		{"GOPROTO.lockexit", "unit/unittype.go", "\tdefer mu.Unlock()\n\tmu.Lock()\n\t_, ok := dimensions[symbol]\n\tif ok {\n\t\tpanic(\"unit: dimension string \\\"\" + symbol + \"\\\" already used\")\n\t}\n\td := Dimension(len(symbols))\n\tsymbols = append(symbols, symbol)\n\tdimensions[symbol] = d\n\treturn d", "\tmu.Lock()\n\t_, ok := dimensions[symbol]\n\tif ok {\n\t\tpanic(\"unit: dimension string \\\"\" + symbol + \"\\\" already used\")\n\t}\n\td := Dimension(len(symbols))\n\tsymbols = append(symbols, symbol)\n\tdimensions[symbol] = d\n\tmu.Unlock()\n\treturn d", func() *core.Result { return goproto.RunLocks(def, core.Pkgs("./unit")) }},
+		{"ERR.overwrite", "optimize/minimize.go", "if settings.Recorder != nil && err == nil {", "if settings.Recorder != nil {", func() *core.Result { return errx.Run(def, core.Pkgs("./optimize")) }},
+		{"ERR.swallow", "interp/cubic.go", "\terr := x.SolveVec(a, b)\n", "\terr := x.SolveVec(a, b)\n\tif _, ok := err.(mat.Condition); ok {\n\t\terr = nil\n\t}\n", func() *core.Result { return errx.Run(def, core.Pkgs("./interp")) }},
+		{"GOPROTO.latch", "optimize/minimize.go", "\t\tif status != NotTerminated || err != nil {\n\t\t\tselect {\n\t\t\tcase <-done:\n\t\t\tdefault:\n\t\t\t\tfinalStatus = status\n\t\t\t\tfinalError = err\n", "\t\tif status != NotTerminated || err != nil {\n\t\t\tfinalStatus = status\n\t\t\tselect {\n\t\t\tcase <-done:\n\t\t\tdefault:\n\t\t\t\tfinalStatus = status\n\t\t\t\tfinalError = err\n", func() *core.Result { return goproto.RunLatch(def, core.Pkgs("./optimize")) }},
 		{"BETA.noread", "blas/gonum/level3float64.go", "\tif beta == 0 {\n\t\tfor i := 0; i < m; i++ {\n\t\t\tctmp := c[i*ldc : i*ldc+n]\n\t\t\tfor j := range ctmp {\n\t\t\t\tctmp[j] = 0", "\tif beta == 0 {\n\t\tfor i := 0; i < m; i++ {\n\t\t\tctmp := c[i*ldc : i*ldc+n]\n\t\t\tfor j := range ctmp {\n\t\t\t\tctmp[j] *= beta", func() *core.Result { return flagx.RunBetaZero(def, core.Pkgs("./blas/gonum")) }},
 		{"GUARD.operand", "lapack/gonum/dbdsqr.go", "if ncc > 0 {\n\t\t\t\timpl.Dlasr(blas.Left, lapack.Variable, lapack.Forward, n, ncc, work, work[n-1:], c, ldc)", "if nru > 0 {\n\t\t\t\timpl.Dlasr(blas.Left, lapack.Variable, lapack.Forward, n, ncc, work, work[n-1:], c, ldc)", func() *core.Result { return flagx.RunGuardOperand(def, core.Pkgs("./lapack/gonum")) }},
 		{"GOPROTO.scratch", "optimize/minimize.go", "\tworker := func() {\n\t\tx := make([]float64, dim)\n", "\tx := make([]float64, dim)\n\tworker := func() {\n", func() *core.Result { return goproto.Run(def, core.Pkgs("./optimize")) }},
